@@ -1,5 +1,5 @@
 (* C02 - session lockstep: each call returns exactly the replies to its own commands. *)
-From LibFtp Require Import Bytes Decimal Reply Endpoint Ascii DataConn DataConn_Proofs Client Client_Proofs Login_Proofs Transfer_Proofs Transfer_More Modes_Proofs History_Proofs.
+From LibFtp Require Import Bytes Decimal Reply Endpoint Ascii DataConn DataConn_Proofs Client Client_Proofs Login_Proofs Transfer_Proofs Transfer_More Modes_Proofs Ctl_Proofs History_Proofs Session_Proofs.
 Local Open Scope N_scope.
 
 (* The unit of lockstep: from a state in which nothing is unread or pending, "send one command, receive its reply"
@@ -123,7 +123,8 @@ Print Assumptions C02_listing_in_step.
    script untouched. (A prefix of a history is a history, so this holds after every call.) *)
 Theorem C02_lockstep_mixed_histories : forall cs rss xss w rest,
   Inv w (rss ++ rest) -> history (c_rfc2428 (w_cfg w)) (c_type (w_cfg w)) cs rss xss ->
-  map outcome_replies (fst (steps w cs)) = map Some xss /\ Inv (snd (steps w cs)) rest.
+  map outcome_replies (fst (steps w cs)) = map Some xss /\ Inv (snd (steps w cs)) rest /\
+  w_script (snd (steps w cs)) = w_script w.
 Proof. exact lockstep_mixed_histories. Qed.
 Print Assumptions C02_lockstep_mixed_histories.
 
@@ -190,3 +191,17 @@ Theorem C02_cancelled_download_in_step : forall w path answers answers' answers'
     io_events (skipn (length (w_trace w)) (w_trace w')) = ev ++ [IoPoll true].
 Proof. exact download_cancelled_passive. Qed.
 Print Assumptions C02_cancelled_download_in_step.
+
+(* a WHOLE SESSION - connect, any history of the kinds above, QUIT - from a disconnected client back to a disconnected client: every call returns exactly the replies to its own commands (the greeting for connect, the reply to QUIT for disconnect) *)
+Theorem C02_whole_session : forall w0 h p s srest g cs rss xss rq xq,
+  w_open w0 = false -> w_data w0 = None -> w_script w0 = s :: srest -> s_reachable s = true ->
+  c_mode (w_cfg w0) = Passive -> c_tls (w_cfg w0) = false ->
+  r_now (s_greeting s) = [RReply g] -> r_close_after (s_greeting s) = false -> code g <> 421 -> code g <> 120 ->
+  s_reactions s = rss ++ [rq] ->
+  history (c_rfc2428 (w_cfg w0)) (c_type (w_cfg w0)) cs rss xss -> simple_reaction rq xq ->
+  let '(os, w') := steps w0 (AConnect h p None :: cs ++ [ADisconnect true]) in
+  map outcome_replies os = map Some ([g] :: xss ++ [[xq]]) /\
+  w_open w' = false /\ w_ssl w' = false /\ w_data w' = None /\ held w' = O /\ w_script w' = srest /\
+  w_backlog w' = [] /\ w_pending w' = [].
+Proof. exact whole_session. Qed.
+Print Assumptions C02_whole_session.
